@@ -54,12 +54,15 @@ def make_device(d, rng):
     kw = dict(latency=latf, chunker=chunker, swallow_first=d.pop("swallow_first", 0), silent_after_replies=d.pop("silent_after", None),
               eof_after_bytes=d.pop("eof_after_bytes", None), unsolicited=unsol, drop_at=d.pop("drop_at", None))
     cut = d.pop("cut_reply", None)
+    pause = d.pop("pause", None)
     if typ == "recorded":
         dev = devices.Recorded(d.pop("name"), **kw)
         dev.cut_reply = cut
+        dev.pause = pause
         return dev
     dev = _scripted(d, kw)
     dev.cut_reply = cut
+    dev.pause = pause
     return dev
 
 
